@@ -33,13 +33,18 @@ func TestVerifC11(t *testing.T) {
 							if k%sn != si {
 								continue
 							}
-							if stuck && repl != "none" {
-								continue // commits stuck on an ex-master that still thinks it is a master
+							if stuck && repl != "none" && repl != "running" {
+								// commits stuck on an ex-master that still thinks it is a master, or that was already
+								// re-pointed (stale-master repair whose offline/semi-sync step failed)
+								continue
 							}
 							id := fmt.Sprintf("c11-%s-%s-%s-st%v-rf%v-%s", rel, repl, ro, stuck, rfile, order)
 							hosts := []string{"h1", "h2", "h3"}
 							sc := vScenario{ID: id, Hosts: hosts, Master: "h1", Manager: "h3", W: 1, Base: 3, Req: reqSpec{Kind: "none"}, Policy: "flow", Rounds: 10,
 								Cfg: map[string]any{"failover": false}}
+							if stuck && repl == "running" {
+								sc.Rounds = 75 // the resetup marker of a stuck host is written after one minute
+							}
 							if order == "withswitch" {
 								sc.Req = reqSpec{Kind: "to", To: "h3"}
 								sc.Manager = "h1"
@@ -101,7 +106,12 @@ func TestVerifC11(t *testing.T) {
 												m := s.W.Hosts[s.lastMasterStr()]
 												row["src"], row["ro"], row["ioerr"], row["sqlerr"] = x.Src, x.RO, x.IOErrno, x.SQLErrno
 												if m != nil {
-													row["execsubset"] = x.Exec.SubsetOf(m.Exec)
+													// "holds": executed or sitting in its binlog waiting for an acknowledgement
+													hold := x.Exec.Clone()
+													for t := range x.Pend {
+														hold.Add(t)
+													}
+													row["execsubset"] = hold.SubsetOf(m.Exec)
 												}
 												s.W.Unlock()
 											}
@@ -134,7 +144,11 @@ func TestVerifC11(t *testing.T) {
 									s.W.Lock()
 									x := s.W.Hosts["h2"]
 									m := s.W.Hosts[s.lastMasterStr()]
-									sub := m != nil && x.Exec.SubsetOf(m.Exec)
+									hold := x.Exec.Clone()
+									for t := range x.Pend {
+										hold.Add(t)
+									}
+									sub := m != nil && hold.SubsetOf(m.Exec)
 									end := map[string]any{"kind": "end", "scn": id, "host": "h2", "isreplica": x.Src != "", "execsubset": sub,
 										"replerror": x.IOErrno != 0 || x.SQLErrno != 0, "ro": x.RO, "resetupfile": false, "marked": false, "resetupfile0": rfile, "stuck": stuck}
 									s.W.Unlock()
@@ -185,6 +199,8 @@ func TestVerifC11(t *testing.T) {
 			who = "h3"
 		}
 		seen := false
+		markedNow := false
+		var listed []map[string]any
 		res := vRun(t, &sc, vRunOpts{setup: func(s *vSim) {
 			if v == "second_master" {
 				s.W.Lock()
@@ -199,6 +215,22 @@ func TestVerifC11(t *testing.T) {
 				}
 				if ev.K == "zk" && ev.At == pathRecovery+"/"+who && ev.Op == "Create" && ev.Res == "ok" {
 					seen = true
+					markedNow = true
+				}
+				if ev.K == "zk" && ev.At == pathRecovery+"/"+who && ev.Op == "Delete" && ev.Res == "ok" {
+					markedNow = false
+				}
+				// while marked (and not the recorded master) the host must not be in any published list
+				if ev.K == "zk" && ev.At == pathActiveNodes && ev.Res == "ok" && (ev.Op == "SetData" || ev.Op == "Create") && ev.By != "tool" {
+					var val []string
+					json.Unmarshal([]byte(ev.Arg), &val)
+					bad := false
+					for _, x := range val {
+						if x == who && markedNow && s.lastMasterStr() != who {
+							bad = true
+						}
+					}
+					listed = append(listed, map[string]any{"kind": "listed", "scn": id, "value": val, "markedlisted": bad})
 				}
 			}
 		}})
@@ -207,6 +239,9 @@ func TestVerifC11(t *testing.T) {
 			continue
 		}
 		out.emit(map[string]any{"kind": "mustmark", "scn": id, "host": who, "markseen": seen})
+		for _, r := range listed {
+			out.emit(r)
+		}
 		meta.emit(map[string]any{"scn": id, "scenario": sc})
 	}
 	meta.emit(map[string]any{"summary": true, "runs": runs, "bases": runs, "stragglers": vStragglers})
